@@ -5,8 +5,13 @@ import (
 )
 
 func LadnToModels(buf []uint8) (dnnValues []string) {
-	for bufOffset := 1; bufOffset < len(buf); {
+	// TS 24.501 9.11.3.29: sequence of (length of DNN value, DNN value)
+	for bufOffset := 0; bufOffset < len(buf); {
 		lenOfDnn := int(buf[bufOffset])
+		bufOffset++
+		if bufOffset+lenOfDnn > len(buf) {
+			break // truncated DNN value
+		}
 		dnn := string(buf[bufOffset : bufOffset+lenOfDnn])
 		dnnValues = append(dnnValues, dnn)
 		bufOffset += lenOfDnn
